@@ -45,6 +45,9 @@ def instances(tier):
         for hist in ("two-targets", "target-then-rest"):
             out.append(dict(id="%s-%s-N2" % (hist, fam), family=fam, N=2, history=hist,
                             budget=dict(wall_s=80 if tier == "quick" else 600, max_paths=4000 if tier == "quick" else 40000)))
+    for k in ((3,) if tier == "quick" else (1, 2, 3, 4)):       # (0: constructor probe, 1: start slope, 2..: stage evaluations)
+        out.append(dict(id="nan-attempt-heun_euler-N2-k%d" % k, family="heun_euler", N=2, history="nan-attempt", nan_at=k, real_controller=True,
+                        budget=dict(wall_s=80 if tier == "quick" else 300, max_paths=300)))
     for fam in (("euler",) if tier == "quick" else ("euler", "rk4", "sympl_euler")):
         out.append(dict(id="shallow-copies-%s-N2" % fam, family=fam, N=2, history="shallow-copies",
                         budget=dict(wall_s=80 if tier == "quick" else 600, max_paths=4000 if tier == "quick" else 40000)))
@@ -88,6 +91,20 @@ def scenario(c, inst):
             c.check("c03.first_state_is_y0", c.all([c.eq(u, v) for u, v in zip(flat(c, a.y[0]), y0)]))
             spans.segment_checks(c, "c03", a, 0, t0, tf)
             spans.pairing_checks(c, "c03", a, cb)
+            return
+        if hist == "nan-attempt":
+            # the rhs leaves its domain at a trial point of the first attempt (it RETURNS NaN, no exception) - with the REAL step controller:
+            # whatever the integrator does about it (reject and retry with a shorter step, or give up with an error), no non-finite time
+            # or state is ever recorded, and a run that reports success covers the span in order
+            rhs.nan_at = inst["nan_at"]
+            cb = spans.cap_callback(c, cap + 2, kind)
+            st, r = run(a.integrate, callback=cb)
+            c.case()
+            finite = all(not (isinstance(v, (float, np.floating)) and not np.isfinite(v)) for v in list(a.t) + [x for row in a.y for x in flat(c, row)])
+            c.check("c03.nan.every_recorded_value_is_finite", finite, info=dict(rows=len(a.t), st=st))
+            if st == "ok":
+                c.check("c03.nan.status_completed", spans.status_ok(a))
+                spans.segment_checks(c, "c03.nan", a, 0, t0, tf)
             return
         if hist == "shallow-copies":
             # scenarios branched from one initial condition: shallow copies of the system taken BEFORE the first integration, each then
